@@ -688,7 +688,19 @@ def _load_field(stream: "SupportsRead[bytes]") -> Optional[ParsedField]:
     elif wire_type == WIRE_FIXED_32:
         decoded = _read_exactly(stream, 4)
         raw += decoded
-    elif wire_type not in (WIRE_START_GROUP, WIRE_END_GROUP):
+    elif wire_type == WIRE_START_GROUP:
+        # (proto2) groups are not supported: skip to the matching end tag and
+        # hand the whole group over as one field, so that it is kept as unknown
+        while True:
+            inner = _load_field(stream)
+            if inner is None:
+                raise EOFError("Stream ended unexpectedly inside a group.")
+            raw += inner.raw
+            if inner.wire_type == WIRE_END_GROUP:
+                if inner.number != number:
+                    raise ValueError("Mismatched end-group tag.")
+                break
+    elif wire_type != WIRE_END_GROUP:
         raise ValueError(f"Invalid wire type {wire_type}.")
 
     return ParsedField(number=number, wire_type=wire_type, value=decoded, raw=raw)
@@ -699,6 +711,8 @@ def load_fields(stream: "SupportsRead[bytes]") -> Generator[ParsedField, None, N
         field = _load_field(stream)
         if field is None:
             return
+        if field.wire_type == WIRE_END_GROUP:
+            raise ValueError("Unexpected end-group tag.")
         yield field
 
 
